@@ -17,7 +17,7 @@ from ..bits import provenance, parse_format, BitsError
 from ..dataflow import Flow, chain, call_name
 from ..absint import Interp
 from ..poly import Poly, le, lt, eq, entails
-from ..util import calls_in, qual, returns_of, has_fact
+from ..util import formals, calls_in, qual, returns_of, has_fact
 from ..terms import Terms, reify, plain, is_none, mk_cmp, show, match, V, ANY, \
     decide_ites
 
@@ -91,13 +91,39 @@ def r1_encoder(program, folder, rep):
     node = T.cfg.node_containing(call)
     fmt = const_of_str(folder, reify(T.term(call.args[0], node)), mod)
     endian, slots, size = parse_format(fmt)
+    SELF = ("param", "self")
+    # what is returned: [constant padding +] pack(...) + packed_data
+    rets = [T.term(r.value) for r in returns_of(fn) if r.value is not None]
+
+    def summands(t):
+        if t[0] == "binop" and t[1] == "Add":
+            return summands(t[2]) + summands(t[3])
+        return [t]
+    parts = summands(rets[0]) if len(rets) == 1 else []
+    PACKED = T.term(call, node)
+    base = 0
+    if PACKED in parts:
+        for x in parts[:parts.index(PACKED)]:
+            if not (x[0] == "const" and isinstance(x[1], bytes)):
+                raise AnalysisError("SDPPacket.bytestring: the header is "
+                                    "preceded by something other than "
+                                    "constant bytes; not analysed")
+            if any(x[1]):
+                raise AnalysisError("SDPPacket.bytestring: non-zero bytes in "
+                                    "front of the header; not analysed")
+            base += len(x[1])
+        slots = [(off + base, sz, code) for off, sz, code in slots]
+        size += base
     args = call.args[1:]
+    if any(isinstance(a, ast.Starred) for a in call.args) or call.keywords:
+        raise AnalysisError("SDPPacket.bytestring: some of the values packed "
+                            "are passed as an unpacked sequence; the slot-"
+                            "by-slot rule does not read that form")
     if len(slots) != len(args):
         rep.bad("C15-R1", inst, "pack arity", "struct.pack(%r) has %d slots "
                 "but %d values" % (fmt, len(slots), len(args)), call)
         return None
     enc = {}    # field -> (byte offset, field lo, n, byte lo)
-    SELF = ("param", "self")
     for (off, sz, code), a in zip(slots, args):
         want = SDP_LAYOUT.get(off)
         if sz != 1 or want is None:
@@ -138,13 +164,12 @@ def r1_encoder(program, folder, rep):
               inst, "the header is 2 pad bytes + 8 single-byte fields (10 "
               "bytes)", construct="header format %r" % fmt, node=call)
     # header is followed by packed_data
-    rets = [T.term(r.value) for r in returns_of(fn) if r.value is not None]
-    ok = len(rets) == 1 and rets[0] == (
-        "binop", "Add", T.term(call, node), ("attr", SELF, "packed_data"))
+    ok = PACKED in parts and parts[parts.index(PACKED) + 1:] == [
+        ("attr", SELF, "packed_data")]
     rep.check(ok, "C15-R1", inst, "the header is followed by packed_data",
               construct="header + packed_data", node=call)
     rep.floor("C15-R1", 9)
-    return fmt, enc
+    return (endian, slots, size), enc
 
 
 def const_of_str(folder, e, mod):
@@ -178,15 +203,31 @@ def r2_decoder(program, folder, rep, fmt, enc):
     call = ups[0]
     cn = T.cfg.node_containing(call)
     dfmt = const_of_str(folder, reify(T.term(call.args[0], cn)), mod)
-    rep.check(dfmt == fmt, "C15-R2", inst,
-              "decoder uses the encoder's header format %r" % fmt,
-              construct="decoder format %r" % dfmt, node=call)
-    rep.check(len(call.args) >= 2 and
-              T.term(call.args[1], cn) == ("param", raw) and
-              (len(call.args) == 2 or const_of(call.args[2]) == 0),
-              "C15-R2", inst, "the header is decoded from offset 0 of the "
-              "datagram", construct="decode offset", node=call)
     endian, slots, size = parse_format(dfmt)
+    # where in the datagram the format is applied
+    dbase = 0
+    if len(call.args) > 2 or call.keywords:
+        kw_ = {k.arg: k.value for k in call.keywords}
+        oe = call.args[2] if len(call.args) > 2 else kw_.get("offset")
+        dbase = const_of(reify(T.term(oe, cn))) if oe is not None else None
+        if not isinstance(dbase, int) or dbase < 0:
+            raise AnalysisError("_unpack_sdp_into_packet: the offset the "
+                                "header is decoded from does not fold")
+    slots = [(off + dbase, sz, code) for off, sz, code in slots]
+    size += dbase
+    rep.check((endian, slots, size) == fmt, "C15-R2", inst,
+              "decoder reads the slots the encoder writes (%d bytes: %s)" % (
+                  fmt[2], ", ".join("%s@%d" % (c, o) for o, _, c in fmt[1])),
+              construct="decoder format %r at offset %d" % (dfmt, dbase),
+              node=call,
+              fail="the decoder applies %r at offset %d of the datagram, "
+                   "which is not the layout the encoder writes (%s)" % (
+                       dfmt, dbase, ", ".join("%s@%d" % (c, o)
+                                              for o, _, c in fmt[1])))
+    rep.check(len(call.args) >= 2 and
+              T.term(call.args[1], cn) == ("param", raw),
+              "C15-R2", inst, "the header is decoded from the datagram "
+              "received", construct="decode source", node=call)
     U = T.term(call, cn)
     # the value of slot i is ("comp", U, i)
     slot_name = {}
@@ -301,8 +342,18 @@ def r3_scp(program, folder, rep):
         # b"".join(<list built here>): the elements in the order appended
         if t[0] in ("call", "callv") and t[1][0] == "attr" and \
                 t[1][2] == "join" and t[1][1] == ("const", b"") and \
+                len(t[2]) == 1 and t[2][0][0] in ("listcomp", "genexp"):
+            raise AnalysisError("SCPPacket.packed_data joins parts made by "
+                                "a comprehension: the part-by-part rule "
+                                "only reads straight-line code")
+        if t[0] in ("call", "callv") and t[1][0] == "attr" and \
+                t[1][2] == "join" and t[1][1] == ("const", b"") and \
                 len(t[2]) == 1 and t[2][0][0] == "new" and H is not None:
             L = t[2][0]
+            if L[2][0] in ("listcomp", "genexp"):
+                raise AnalysisError("SCPPacket.packed_data joins parts made "
+                                    "by a comprehension: the part-by-part "
+                                    "rule only reads straight-line code")
             if L[2][0] != "list":
                 return [t]
             parts = list(L[2][1:])
@@ -366,7 +417,12 @@ def r3_scp_decoder(program, folder, rep):
     inst = qual(fn)
     mod = fn._module
     const_of = _folder_const(folder, mod)
-    if any(isinstance(n, (ast.For, ast.While)) for n in ast.walk(fn)):
+    if any(isinstance(n, (ast.For, ast.While)) for n in ast.walk(fn)) or \
+            any(isinstance(n, (ast.ListComp, ast.GeneratorExp, ast.SetComp,
+                               ast.DictComp)) and
+                any(isinstance(c, ast.Call) and
+                    call_name(c)[0] in ("unpack_from", "unpack")
+                    for c in ast.walk(n)) for n in ast.walk(fn)):
         raise AnalysisError("SCPPacket.from_bytestring reads the arguments "
                             "in a loop: the argument-by-argument rule only "
                             "reads straight-line code")
@@ -533,6 +589,44 @@ def r3_scp_payload(program, folder, rep):
     inst = qual(fn)
     it0 = Interp(fn)
     fl0 = it0.flow
+    # struct.iter_unpack raises unless the buffer is a whole number of items:
+    # the body of a reply is as long as the sender made it
+    for c in calls_in(fn, "iter_unpack"):
+        if len(c.args) != 2:
+            continue
+        node = fl0.cfg.node_containing(c)
+        tested = any(
+            isinstance(x, ast.BinOp) and isinstance(x.op, (ast.Mod,
+                                                           ast.BitAnd))
+            for cnd, pol, at in fl0.facts(node) for x in ast.walk(cnd))
+        buf = c.args[1]
+        while isinstance(buf, ast.Subscript) and isinstance(buf.slice,
+                                                            ast.Slice):
+            whole = buf
+            buf = buf.value
+        src = chain(buf)
+        ds = fl0.reaching(src, node) if src else []
+        from_reply = src is not None and (
+            src in formals(fn) or any(
+                d.value is not None and any(
+                    chain(y) in formals(fn) or (
+                        chain(y) or "").endswith(".data")
+                    for y in ast.walk(d.value)) for d in ds))
+        divided = any(isinstance(x, ast.BinOp) and isinstance(
+            x.op, (ast.FloorDiv, ast.Mod, ast.BitAnd, ast.RShift))
+            for a_ in c.args[1:] for x in ast.walk(a_))
+        if from_reply and not tested and not divided:
+            rep.bad("C15-R3", inst, "iter_unpack over the body",
+                    "struct.iter_unpack is applied to (a slice of) the "
+                    "reply body, whose length nothing makes a whole number "
+                    "of items: a reply whose body is not a multiple of the "
+                    "item size raises struct.error instead of being decoded",
+                    c)
+        elif from_reply:
+            raise AnalysisError("SCPPacket.from_bytestring decodes with "
+                                "iter_unpack over a computed part of the "
+                                "body; whether that is a whole number of "
+                                "items is not decided")
     found = 0
     for d in fl0.defs:
         if not (d.var.endswith(".data") and d.mode == "assign" and
@@ -566,6 +660,19 @@ def r3_scp_payload(program, folder, rep):
                 raise AnalysisError("the payload offset is accumulated in a "
                                     "loop whose invariant this rule cannot "
                                     "infer")
+            counted = any(isinstance(c, ast.Call) and
+                          call_name(c)[0] in ("len", "sum")
+                          for c in ast.walk(lower)) or any(
+                x.var in names and (isinstance(x.value, (
+                    ast.ListComp, ast.GeneratorExp)) or (
+                        isinstance(x.value, ast.Call) and
+                        call_name(x.value)[0] in ("len", "sum", "list",
+                                                  "tuple")))
+                for x in it.flow.defs)
+            if counted:
+                raise AnalysisError("the payload offset is derived from the "
+                                    "size of a collection of the words read; "
+                                    "how many there can be is not inferred")
         rep.check(ok, "C15-R3", inst, "the payload is the body from an "
                   "offset within the body (0 <= offset <= len)",
                   construct="payload offset within body", node=d.value,
